@@ -1,6 +1,14 @@
 """C02 - leaving a scope restores the surrounding context on every exit path."""
 from harness.legs import cfg_text, leg_m, leg_mutant, leg_r
-from props.scopelife_common import ScopeLifeDriver, replay  # noqa: F401
+from props.scopelife_common import ScopeLifeDriver
+from props.scopelife_common import replay as _replay_life
+
+
+def replay(rep, record):
+    if record.get("spec") == "Scopes":
+        from props.c01 import replay as r
+        return r(rep, record)
+    return _replay_life(rep, record)
 
 SPEC = "ScopeLife"
 MANIFEST = dict(
@@ -12,7 +20,8 @@ MANIFEST = dict(
          "and CancelNotLost (plus the C08 invariants) in every state; every edge is replayed into a real scope nested "
          "in an outer scope and a catch-all, and the probe triple (state lookups, metrics scope, task group) taken "
          "before entering is compared with the one taken right after the block was left, together with the identity "
-         "of the exception that left it. The happy-path restoration for sync scopes and updates is in Scopes.tla.",
+         "of the exception that left it. Sync scopes and updates - and several nested blocks left by one Exception / "
+         "BaseException up to a catch-all (Try / Raise, action property Restored) - are in Scopes.tla, checked by C01/C03.",
     technique="TLA+ spec + TLC exhaustive model checking of fault and cancellation placements; edge-complete graph "
               "replay into the implementation through gated doubles",
     design="5/C02")
@@ -42,6 +51,13 @@ def run(rep, work, tier, seed):
                    cfg_text(dict(small, Bug="swallow_exit_cancel"), invariants=INVS), ["CancelNotLost"])
     for name, conf in confs:
         leg_r(rep, work, SPEC, f"conf_{name}_{tier}", cfg_text(conf, invariants=INVS), ScopeLifeDriver)
+    # sync scopes, updates and several nested blocks left by one Exception / BaseException up to a catch-all: Scopes.tla
+    # (Try / Raise with the action property Restored), replayed on a single task
+    from props.scopes_common import ScopesDriver
+    sc = dict(NTasks=1, Types=["A", "B"], Vals=[1, 2], MaxDepth=3, MaxOps=4 if tier == "quick" else 5, SupKind="tiny", Bug="none")
+    leg_m(rep, work, "Scopes", f"scopes_mc_{tier}", cfg_text(sc, spec="Spec", invariants=["TypeOK", "LexicalLookup"],
+                                                              properties=["Restored"]), expect_actions=["Try", "Raise", "Leave"])
+    leg_r(rep, work, "Scopes", f"scopes_conf_{tier}", cfg_text(sc, invariants=["TypeOK"]), lambda: ScopesDriver(("A", "B")))
     rep.assumptions += [
         "spawned tasks obey cancellation at once; they end or fail only while the parent is in its body or waiting for them",
         "one external cancellation per run; a cancellation that arrives while asyncio's TaskGroup is already aborting "
